@@ -389,9 +389,10 @@ func runC20(c *Ctx) {
 	// ---- O7: the pod group aggregate starts empty, takes every listed pod, and sums like into like
 	pkgPGC := "pkg/podgroupcontroller/controllers"
 	if calc := c.Anchor("O7", pkgPGC, "PodGroupReconciler", "calculatePodGroupMetadata"); calc != nil {
-		addPM := p.Func(pkgPGC, "", "addPodMetadata")
+		// the accumulation step: the call of PodGroupMetadata.AddPodMetadata, direct or through a helper of the loop
+		accum := p.Func(pkgPGC+"/metadata", "PodGroupMetadata", "AddPodMetadata")
 		newMD := p.Func(pkgPGC+"/metadata", "", "NewPodGroupMetadata")
-		adds := instrsIn(calc, isCallToFn(addPM))
+		adds := instrsIn(calc, p.performs(isCallToFn(accum), 2))
 		c.Floor("O7", "MPT addPodMetadata call sites", len(adds), 1)
 		for _, in := range adds {
 			ok, path := everyIterationPassesR(in, func(x ssa.Instruction) bool { return x == in }, nil, func(r *ssa.Return) bool {
@@ -399,8 +400,16 @@ func runC20(c *Ctx) {
 				return len(r.Results) == 2 && termOf(r.Results[1]).isNilConst()
 			})
 			c.Check(ok, "O7", "MPT", funcKey(calc)+": every listed pod is added (or the computation is abandoned with an error)", instrPos(in), "each iteration reaches addPodMetadata", "some pod of the pod group is skipped ("+pathStr(path)+"): its resources are missing from the status")
-			t := termOf(in.(ssa.CallInstruction).Common().Args[1])
-			c.Check(t.isCallTo(newMD) || t.contains(func(x *Term) bool { return x.isCallTo(newMD) }), "O7", "PROV", funcKey(calc)+": sums accumulate into a fresh PodGroupMetadata", instrPos(in), t.String(), "the accumulator is not a fresh NewPodGroupMetadata(): totals of an earlier reconcile are counted again")
+			fresh, desc := false, ""
+			for _, a := range in.(ssa.CallInstruction).Common().Args {
+				if !strings.HasSuffix(typeKey(a.Type()), "metadata.PodGroupMetadata") {
+					continue
+				}
+				t := termOf(a)
+				desc = t.String()
+				fresh = t.isCallTo(newMD) || t.contains(func(x *Term) bool { return x.isCallTo(newMD) })
+			}
+			c.Check(fresh, "O7", "PROV", funcKey(calc)+": sums accumulate into a fresh PodGroupMetadata", instrPos(in), desc, "the accumulator is not a fresh NewPodGroupMetadata(): totals of an earlier reconcile are counted again")
 		}
 		if newMD != nil {
 			n := 0
